@@ -7,6 +7,7 @@ import Proofs.LoadPhrase
 import Proofs.LoadFuelBuilt
 import Proofs.LoadDangling
 import Proofs.LoadShapes
+import Proofs.LoadShapesMore
 import Gen.Sharing
 
 /-!
@@ -1007,5 +1008,76 @@ example : readArgs exSchema exOrder "A" 2 = [.int 3, .none, .none] ∧ readArgs 
 
 example : exStmts.Perm exStmts.reverse := (List.reverse_perm _).symm
 example : Loader.inputs [] [exStmts.take 3, [], exStmts.drop 3] = exStmts := by decide
+
+/-! ### the batch relate of `MetaClass.new` on the API route, tied for ALL inputs (beyond the table checks above) -/
+
+/-- `relate` of the API model as a WHOLE, for every model state, pair, rel id and phrase: the arguments the source
+    hands to `_find_link` (`relateProg.findArgs`), the loop body `findBody` over the link definitions, the pair
+    oriented as `_find_link` returned it (swapped or not), the guarded link calls with the undo, the outcome.  (The
+    `deleted` guards of the program are vacuous here: this model has no `delete`.)  `linkDefs = [sd, td]` only names
+    the two generated link definitions -/
+theorem relate_whole_as_in_source (m : Model) (k1 : String) (i1 : Nat) (k2 : String) (i2 : Nat) (rel phrase : String)
+    (sd td : Pyx.Gen.RelateShape.LinkDef) (hd : Pyx.Gen.RelateShape.linkDefs = [sd, td]) :
+    relate m k1 i1 k2 i2 rel phrase =
+      iRelateApi Pyx.Gen.RelateShape.findBody sd td Pyx.Gen.RelateShape.relateProg m k1 i1 k2 i2 rel phrase :=
+  relate_eq_generated m k1 i1 k2 i2 rel phrase sd td hd
+
+/-- the query loop of the batch relate, for every candidate list and state: each instance of the other class is tested
+    by the translated `WhereEqual` loop and each hit is related AT ONCE (before the next instance is tested) by the
+    interpreted `relate`, with the two instances in the order `newRelateArgs` read from the source (found instance
+    first, new instance second); the first outcome other than ok ends the loop -/
+theorem batch_query_as_in_source (sd td : Pyx.Gen.RelateShape.LinkDef) (hd : Pyx.Gen.RelateShape.linkDefs = [sd, td])
+    (fuel : Nat) (kwargs : List (String × Val)) (okind kind : String) (i : Nat) (rel phrase : String) (js : List Nat)
+    (m : Model) :
+    relateQuery fuel kwargs okind kind i rel phrase js m =
+      iRelateQuery Pyx.Gen.QueryShape.whereShape Pyx.Gen.RelateShape.newRelateArgs
+        (iRelateApi Pyx.Gen.RelateShape.findBody sd td Pyx.Gen.RelateShape.relateProg)
+        fuel kwargs okind kind i rel phrase js m :=
+  relateQuery_eq_generated sd td hd fuel kwargs okind kind i rel phrase js m
+
+/-- the links the batch relate iterates (`self.links.values()`), for every association list and class: per association
+    the `add_link` calls of `define_association` in their order, a link belonging to the class it STARTS at, with the
+    key map of that direction, the class it leads to and the phrase handed to the call -/
+theorem batch_links_as_in_source (all : List AssocStmt) (kind : String) :
+    linksOfKind all kind = iLinksOfKind Pyx.Gen.RelateShape.linkDefs all kind :=
+  linksOfKind_eq_generated all kind
+
+/-- the tail of `new`, for every model, class and argument list: once the row is stored, the phases read from the
+    source decide — return at once when no referential value was given, THEN the batch relate over the interpreted
+    link list (an outcome other than ok ends the call, the row stays stored), then the instance is returned -/
+theorem new_tail_as_in_source (m : Model) (kind : String) (args : List Val) :
+    apiNew m kind args =
+      match findCls m.classes kind with
+      | none => (m, .unmodelled)
+      | some c =>
+        let all := m.assocs.map (·.1)
+        let refNames := referential all kind
+        let given : Row := (c.attrs.zip args).map (fun p => (p.1.1, p.2))
+        let refs := given.filter (fun p => refNames.contains p.1)
+        iNewTail refs.isEmpty (relateLinks refs kind c.rows.length (iLinksOfKind Pyx.Gen.RelateShape.linkDefs all kind))
+          Pyx.Gen.RelateShape.newPhases { m with classes := addRow m.classes kind (stripRow refNames given) } :=
+  apiNew_eq_generated m kind args
+
+/-! non-vacuity: the hypothesis is discharged by the generated list itself; on the cardinality example the interpreted
+    `relate` links the first A row to the B row and refuses the second (RelateException, nothing left behind); with
+    the arguments of the batch relate exchanged the query loop would look for a link in the wrong direction -/
+example : ∃ sd td, Pyx.Gen.RelateShape.linkDefs = [sd, td] := ⟨_, _, rfl⟩
+example : ∀ sd td, Pyx.Gen.RelateShape.linkDefs = [sd, td] →
+    let m := (apiBuild cardSchema (cardOrder.take 2)).1
+    (m.assocs.map (fun p => (p.2.src 0, p.2.tgt 0))) = [([0], [0])] ∧
+    (iRelateApi Pyx.Gen.RelateShape.findBody sd td Pyx.Gen.RelateShape.relateProg m "B" 0 "A" 1 "R1" "").2 = .relateError ∧
+    ((iRelateApi Pyx.Gen.RelateShape.findBody sd td Pyx.Gen.RelateShape.relateProg m "B" 0 "A" 1 "R1" "").1.assocs.map
+      (fun p => (p.2.src 0, p.2.tgt 1))) = [([0], [])] ∧
+    (iRelateQuery Pyx.Gen.QueryShape.whereShape Pyx.Gen.RelateShape.newRelateArgs
+      (iRelateApi Pyx.Gen.RelateShape.findBody sd td Pyx.Gen.RelateShape.relateProg) (fuelOf m) [("Id", .int 1)] "B" "A" 1 "R1" ""
+      [0] m).2 = .relateError ∧
+    (iRelateQuery Pyx.Gen.QueryShape.whereShape Pyx.Gen.RelateShape.newRelateArgs
+      (iRelateApi Pyx.Gen.RelateShape.findBody sd td Pyx.Gen.RelateShape.relateProg) (fuelOf m) [("Id", .int 2)] "B" "A" 1 "R1" ""
+      [0] m).2 = .ok ∧
+    iLinksOfKind Pyx.Gen.RelateShape.linkDefs (m.assocs.map (·.1)) "A" = [([("Id", "B_Id")], "B", "R1", "")] := by
+  intro sd td hd
+  simp only [Pyx.Gen.RelateShape.linkDefs, List.cons.injEq, and_true] at hd
+  obtain ⟨rfl, rfl⟩ := hd
+  decide
 
 end PyxProps.C03
